@@ -9,8 +9,10 @@ import AnyVecModel.Proofs.KernelIter
 import AnyVecModel.Proofs.KernelPtrAt
 import AnyVecModel.Proofs.KernelRange
 import AnyVecModel.Proofs.KernelCtor
+import AnyVecModel.Props.Refine
 namespace AnyVec
 namespace C14
+variable {bg : Nat → Option VecSt}
 open World
 
 /-- all calls of a choice string: what each returned, and the final cursor -/
@@ -188,6 +190,16 @@ theorem range_cursor_is_the_source (len : Nat) (lo hi : Bnd) (s e : Nat) (d : Ve
     Gen.Kernel.drain_new d.len s e = .ok (.made s [s, e, s, e, d.len]) ∧
     Gen.Kernel.splice_new d.len s e = .ok (.made s [s, e, s, e, d.len]) :=
   ⟨KernelTie.into_range_tie len lo hi, rfl, (KernelTie.splice_ctor_tie d s e).1⟩
+
+/-- **iteration in every reachable situation** (Props/Refine.lean): in any world that shows an abstract vector - any
+fault-free reachable world does - every sequence of `next` / `next_back` calls on `iter()` prints exactly what the same
+calls print on the abstract items (`Refine.specIter`: the item at the cursor the call yields, the exact remaining length
+after every call, `None` for good once the ends have met) and leaves the world unchanged. -/
+theorem iteration_refines (cfg : Cfg) (v ty : Nat) (cs : List End) (w : World) (s : Refine.Spec)
+    (h : Refine.Rel bg v ty w s) :
+    World.step cfg (.iter v cs) w =
+      (w, .ok (Refine.specIter cfg s.items ⟨0, s.items.length⟩ cs [toString s.items.length])) :=
+  Refine.iter_refines cfg v ty cs w s h
 
 end C14
 end AnyVec
